@@ -21,6 +21,7 @@ package buffer
 
 //@ func (*buffer.Buffer).AppendBytes
 //@   props C01 C08
+//@   refines callback:zapcore.safeAppendStringLike.appendTo
 //@   flags nopanic
 //@   requires b != nil
 //@   modifies b.bs, comp(E:uint8)
@@ -30,6 +31,7 @@ package buffer
 
 //@ func (*buffer.Buffer).AppendString
 //@   props C01 C08 C16
+//@   refines callback:zapcore.safeAppendStringLike.appendTo
 //@   flags nopanic
 //@   requires b != nil
 //@   modifies b.bs, comp(E:uint8)
@@ -121,11 +123,57 @@ package buffer
 //@   requires b != nil && b.pool.p != nil
 //@   modifies nothing
 
+// Number / bool / time appenders: exactly one chunk is appended (what strconv / time produce).
+//@ macro bapp(b *buffer.Buffer) Bytes = sub(seq(b.bs), len(old(b.bs)), len(b.bs))
+
 //@ func (*buffer.Buffer).AppendInt
 //@   props C01 C08
 //@   flags nopanic
 //@   requires b != nil
 //@   modifies b.bs, comp(E:uint8)
-//@   ensures len(b.bs) >= len(old(b.bs)) && sub(seq(b.bs), 0, len(old(b.bs))) == old(seq(b.bs))
+//@   ensures len(b.bs) > len(old(b.bs)) && sub(seq(b.bs), 0, len(old(b.bs))) == old(seq(b.bs))
+//@   ensures seq(b.bs) == cat(old(seq(b.bs)), bapp(b)) && scalarChunk(bapp(b))
+//@   ensures elems_frame(type(uint8), b.bs)
+//@   ensures arr(b.bs) == old(arr(b.bs)) || fresh(b.bs)
+
+//@ func (*buffer.Buffer).AppendUint
+//@   props C01 C08
+//@   flags nopanic
+//@   requires b != nil
+//@   modifies b.bs, comp(E:uint8)
+//@   ensures len(b.bs) > len(old(b.bs))
+//@   ensures seq(b.bs) == cat(old(seq(b.bs)), bapp(b)) && scalarChunk(bapp(b))
+//@   ensures elems_frame(type(uint8), b.bs)
+//@   ensures arr(b.bs) == old(arr(b.bs)) || fresh(b.bs)
+
+//@ func (*buffer.Buffer).AppendBool
+//@   props C01 C08
+//@   flags nopanic
+//@   requires b != nil
+//@   modifies b.bs, comp(E:uint8)
+//@   ensures len(b.bs) > len(old(b.bs))
+//@   ensures seq(b.bs) == cat(old(seq(b.bs)), bapp(b)) && scalarChunk(bapp(b))
+//@   ensures elems_frame(type(uint8), b.bs)
+//@   ensures arr(b.bs) == old(arr(b.bs)) || fresh(b.bs)
+
+//@ func (*buffer.Buffer).AppendFloat
+//@   props C01 C08
+//@   flags nopanic
+//@   requires b != nil
+//@   modifies b.bs, comp(E:uint8)
+//@   ensures len(b.bs) > len(old(b.bs))
+//@   ensures seq(b.bs) == cat(old(seq(b.bs)), bapp(b)) && floatText(bapp(b))
+//@   ensures !math.IsNaN(f) && !math.IsInf(f, 1) && !math.IsInf(f, -1) ==> scalarChunk(bapp(b))
+//@   ensures elems_frame(type(uint8), b.bs)
+//@   ensures arr(b.bs) == old(arr(b.bs)) || fresh(b.bs)
+
+//@ func (*buffer.Buffer).AppendTime
+//@   props C01 C08
+//@   flags nopanic
+//@   requires b != nil
+//@   modifies b.bs, comp(E:uint8)
+//@   ensures len(b.bs) >= len(old(b.bs))
+//@   ensures seq(b.bs) == cat(old(seq(b.bs)), bapp(b))
+//@   ensures layoutSafe(layout) ==> allSafe(bapp(b))
 //@   ensures elems_frame(type(uint8), b.bs)
 //@   ensures arr(b.bs) == old(arr(b.bs)) || fresh(b.bs)
